@@ -2,6 +2,8 @@ package conccheck
 
 import (
 	"fmt"
+	"os"
+	"path/filepath"
 	"testing"
 
 	"pgregory.net/rapid"
@@ -22,12 +24,29 @@ func TestC03(t *testing.T) {
 		f := &failer{t: t, st: st}
 		kv := rapid.Bool().Draw(t, "kv")
 		nth := rapid.IntRange(2, 4).Draw(t, "threads")
-		c := newCW(f, kv, false, nth)
+		restored := rapid.IntRange(0, 3).Draw(t, "restored") == 0
+		nw := nth
+		if restored {
+			nw = 0 // writers are created after the restore
+		}
+		c := newCW(f, kv, false, nw)
 		defer c.teardown()
 		nkeys := rapid.IntRange(2, 3).Draw(t, "nkeys")
 		keys := []string{"a", "b", "c"}[:nkeys]
 		rounds := rapid.IntRange(1, 3).Draw(t, "rounds")
-		f.logf("c03 kv=%v threads=%d keys=%v", kv, nth, keys)
+		f.logf("c03 kv=%v threads=%d keys=%v restored=%v", kv, nth, keys, restored)
+		if restored {
+			var items [][]byte
+			for _, k := range append([]string{"0", "z"}, keys...) {
+				if rapid.Bool().Draw(t, "stored") {
+					items = append(items, c.itemFor(k, "disk"))
+				}
+			}
+			dir := filepath.Join(os.Getenv("VERIF_TMP"), fmt.Sprintf("c03-%d-%d", os.Getpid(), rapid.IntRange(0, 1<<30).Draw(t, "dirid")))
+			os.RemoveAll(dir)
+			defer os.RemoveAll(dir)
+			c.restoreInto(items, dir, nth)
+		}
 		overlapRounds := 0
 		for r := 0; r < rounds; r++ {
 			scripts := c.drawWriterScripts(t, nth, 4, keys, 0)
@@ -52,7 +71,11 @@ func TestC03(t *testing.T) {
 		}
 		c.closeAllAndCollect(false)
 		c.shutdown()
-		st.Case(f.desc(), overlapRounds > 0, fmt.Sprintf("rounds-%d", rounds))
+		cls := "fresh-instance"
+		if restored {
+			cls = "restored-instance"
+		}
+		st.Case(f.desc(), overlapRounds > 0, fmt.Sprintf("rounds-%d", rounds), cls)
 		st.AddExtra("sched-steps", int64(c.Steps))
 		st.AddExtra("preemptions", int64(c.Preempts))
 		st.AddExtra("overlapping-op-pairs", int64(c.overlaps))
